@@ -9,10 +9,10 @@ class CPoolSpec(Spec):
     shrink_groups = (('nclients', 'client_tenant', ()),)
     wall_cap = {'quick': 1200, 'thorough': 7200}
     strata = {
-        'quick': [('core', 5), ('nofault', 3), ('cancel', 1), ('poolfault', 1),
-                  ('remote', 3), ('remote_nofault', 2), ('remote_cancel', 1)],
-        'thorough': [('core', 5), ('nofault', 3), ('cancel', 1), ('poolfault', 1),
-                     ('remote', 3), ('remote_nofault', 2), ('remote_cancel', 1)],
+        'quick': [('core', 5), ('nofault', 3), ('cancel', 1), ('cancel_batch', 1), ('poolfault', 1),
+                  ('remote', 3), ('remote_nofault', 2), ('remote_cancel', 1), ('remote_restart', 2)],
+        'thorough': [('core', 5), ('nofault', 3), ('cancel', 1), ('cancel_batch', 1), ('poolfault', 1),
+                     ('remote', 3), ('remote_nofault', 2), ('remote_cancel', 1), ('remote_restart', 2)],
     }
     runs = {'quick': 64000, 'thorough': 2400000}
     components = {
@@ -25,12 +25,12 @@ class CPoolSpec(Spec):
                  'edb.common.{debug,lru,...}, edb.server.{args,defines,metrics}, edb.pgsql.params'],
         'stub': cpool_island.STUB_DESCRIPTIONS,
         'model': ['simulated server state: versioned tokens per tenant/database; template process respawn policy'],
-        'not_covered': ['crash and restart of the remote compiler server process itself (its workers and its client links do crash)',
-                        'server.py: MetricsProtocol, server_main()/click entry point',
+        'not_covered': [                        'server.py: MetricsProtocol, server_main()/click entry point',
                         'worker_proc.main() fork/supervise loop (modelled by the simulator)'],
     }
     rule = ('remote strata: 1-3 server instances each with a RemotePool, one remote compiler server (MultiSchemaPool), 1-3 '
-            'multitenant workers, simulated links (latency, fragmentation, drops, refused reconnects); E3 is checked on both hops. '
+            'multitenant workers, simulated links (latency, fragmentation, drops, refused reconnects); stratum remote_restart: the compiler-server '
+            'process itself dies (with its workers and every link) and is started again 1-2 times per run while sessions hold transactions open; E3 is checked on both hops. '
             'Other strata: one run = one seeded world (pool kind fixed/adaptive/multitenant, 1-3 workers, 1-3 tenants, 1-3 databases, 1-5 '
             'concurrent clients x 2-11 requests, state mutations between requests, drawn service latencies, fault kinds enabled '
             'per run); oracles E1 (echo of what the compiler entry point received vs what the caller passed), E2 (errors '
@@ -333,6 +333,10 @@ MUTANTS = [
     {'name': 'revert_fix_failed_sync_uncertain', 'reverts': 'C17-remote-failed-sync', 'strata': ['remote', 'remote_cancel'],
      'patches': [(PF, _F4_NEW, _F4_OLD)]},
     # the two halves of the request-state fix, one at a time
+    {'name': 'revert_fix_remote_state_id_base', 'reverts': 'C17-remote-server-restart-state-id', 'strata': ['remote_restart'],
+     'patches': [(SF, """_tx_state_id_seq = secrets.randbits(62)
+""", """_tx_state_id_seq = 0
+""")]},
     {'name': 'remote_server_reads_client_state_after_wait', 'strata': REMOTE,
      'patches': [(SF, _F1A_NEW, _F1A_LATE_READ_ONLY)]},
     {'name': 'remote_server_gate_lets_requests_overtake', 'strata': REMOTE,
